@@ -131,7 +131,7 @@ func TestRandomScripts(t *testing.T) {
 	const check = "random_scripts"
 	stats.Rule(check, "rapid draws 2-4 goroutine programs (1-3 acquisitions each, Lock/RLock incl. multi-entity RLock and nested acquisition in ascending entity order on 1-3 entities; StarvingMutex: one entity) and an arrival order (permutation of all operations); executed under the schedule controller, a third of them with hive.go's debug mode (deadlock detector wait path) enabled; oracles: exclusion monitor on observed events, every operation that the reference RW model says must be granted is granted within ctl.HangTimeout, no legal operation panics; non-trivial = an operation was observed blocked and granted later, or >=2 operations queued on one entity; distinct by (mutex, programs, arrival order)")
 	rapid.Check(t, func(rt *rapid.T) {
-		mutex := rapid.SampledFrom([]string{"starving", "starving_zero", "dag", "dag"}).Draw(rt, "mutex")
+		mutex := rapid.SampledFrom([]string{"starving", "starving_zero", "starving_copied", "dag", "dag"}).Draw(rt, "mutex")
 		s := genScript(rt, mutex, 4, 3, 3)
 		// hive.go's debug mode routes every blocking acquisition through a different wait path (deadlock detector):
 		// a third of the scripts run with it switched on (process-wide flag, restored before the next case)
@@ -139,6 +139,18 @@ func TestRandomScripts(t *testing.T) {
 			debug.SetEnabled(true)
 			defer debug.SetEnabled(false)
 			stats.Label(check, "hive_debug_mode_on")
+		}
+		// in a quarter of the scripts the debug mode is switched (on or off) after k issued operations, while
+		// acquisitions may be blocked; the setting is restored after the script
+		if rapid.IntRange(0, 3).Draw(rt, "debugFlip") == 0 {
+			total := 0
+			for _, p := range s.Progs {
+				total += len(p)
+			}
+			before := debug.GetEnabled()
+			debugFlipAt = rapid.IntRange(1, total).Draw(rt, "debugFlipAt")
+			defer func() { debugFlipAt = -1; debug.SetEnabled(before) }()
+			stats.Label(check, "hive_debug_mode_switched_mid_script")
 		}
 		res := runScript(s, nil)
 		noteParking(check, res)
@@ -159,7 +171,7 @@ func TestUnlockNotHeld(t *testing.T) {
 	const check = "unlock_not_held"
 	stats.Rule(check, "rapid draws a 1-3 goroutine script (as random_scripts) plus one Unlock(e)/RUnlock(e...) executed by the controller after k issued operations once the system has settled; the call is executed only when, from observed events, the lock is certainly not held in that mode (no registered holder in that mode, for RUnlock additionally no outstanding RLock on the entity); it must panic; the remaining script must complete under the same oracles and afterwards every entity must be lockable in both modes; non-trivial = the wrong unlock was executed; distinct by (script, arrival order, position, op)")
 	rapid.Check(t, func(rt *rapid.T) {
-		mutex := rapid.SampledFrom([]string{"starving", "starving_zero", "dag"}).Draw(rt, "mutex")
+		mutex := rapid.SampledFrom([]string{"starving", "starving_zero", "starving_copied", "dag"}).Draw(rt, "mutex")
 		s := genScriptMin(rt, mutex, 1, 3, 3, 2)
 		total := len(s.Order)
 		ents := 1
@@ -252,7 +264,7 @@ func TestContention(t *testing.T) {
 	const check = "contention"
 	stats.Rule(check, "rapid draws 8-16 free-running goroutines, each repeating a drawn well-formed program (as random_scripts) 20-80 times with drawn yields inside the critical sections, on StarvingMutex or DAGMutex (1-3 entities); oracles: exclusion monitor (holder registered after the acquire returned, removed before the release is issued), completion within ctl.HangTimeout, no panic; non-trivial = at least one write acquisition and one other goroutine using the same entity; distinct by (mutex, programs, repetitions)")
 	rapid.Check(t, func(rt *rapid.T) {
-		mutex := rapid.SampledFrom([]string{"starving", "starving_zero", "dag"}).Draw(rt, "mutex")
+		mutex := rapid.SampledFrom([]string{"starving", "starving_zero", "starving_copied", "dag"}).Draw(rt, "mutex")
 		ents := 1
 		if mutex == "dag" {
 			ents = rapid.IntRange(1, 3).Draw(rt, "ents")
